@@ -68,11 +68,15 @@ t.loop(1, lambda cx, k, v: z3.And(v.ports.n == v.items.n, S.forall(0, v.items.n,
 from .c_wildcard import il as _init_line  # noqa  (helpers.init_line: same whitespace tokens)
 _init_line.props = tuple(set(_init_line.props) | {"C08"})
 
-PTS = z3.Function("ports_text", z3.IntSort(), z3.ArraySort(z3.IntSort(), z3.IntSort()), z3.StringSort())
-pts = contract("cisco_acl.helpers.ports_to_string", dict(items=TList(TInt)), TStr, verify=False, props=("C08",),
-               note="compact range text of a port list, named by a ghost function of the list; the codec itself is checked by the bounded codec clauses of C08 "
-                    "(its deductive contract is parked in contracts/wip_ports_to_string.py)")
-pts.ghost["pure_result"] = lambda cx, items: __import__("pyvc.values", fromlist=["SV"]).SV(TStr, PTS(items.n, items.a))
+from . import c_codec  # noqa  (helpers.ports_to_string: proved contract - the tokens of the text denote exactly the given ports)
+from .c_codec import covered, result_tokens
+
+
+def text_denotes(text, ports):
+    """the comma tokens of `text` denote exactly the ports of the list (statement of the codec clause of C08)"""
+    T = result_tokens(text)
+    return z3.And(S.forall_int(lambda x: z3.Implies(covered(T, x), _mem(ports, x))),
+                  S.forall(0, ports.n, lambda i: covered(T, ports.a[i])))
 
 
 # ---------------------------------------------------------------- Port.line setter, operands written as numbers
@@ -128,8 +132,10 @@ ls.ensure("ports ascending", lambda cx, result, self, line: z3.And(
     ascending(cx.get(self, "_ports"), strict=False),
     z3.Implies(_op(cx, self) != "eq", ascending(cx.get(self, "_ports"))),
     z3.Implies(_op(cx, self) == "eq", same_list(cx.get(self, "_ports"), cx.get(self, "_items")))))
-ls.ensure("range text", lambda cx, result, self, line: z3.Implies(
-    toks(line).n > 0, S._t(cx.get(self, "_sport")) == PTS(cx.get(self, "_ports").n, cx.get(self, "_ports").a)))
+ls.ensure("range text sound", lambda cx, result, self, line: z3.Implies(cx.get(self, "_ports").n > 0, S.forall_int(
+    lambda x: z3.Implies(covered(result_tokens(cx.get(self, "_sport")), x), _mem(cx.get(self, "_ports"), x)))))
+ls.ensure("range text complete", lambda cx, result, self, line: z3.Implies(cx.get(self, "_ports").n > 0, S.forall(
+    0, cx.get(self, "_ports").n, lambda i: covered(result_tokens(cx.get(self, "_sport")), cx.get(self, "_ports").a[i]))))
 
 
 # ---------------------------------------------------------------- assigning an expression's own items / ports back (C08, last sentence)
@@ -174,7 +180,17 @@ si.ensure("invariant kept", lambda cx, result, self, items: inv_port(cx, self))
 sp = contract("cisco_acl.port.Port.ports.fset#self", dict(self=TObj("Port"), ports=TList(TInt)), None, props=("C08",), modifies=PFIELDS,
               ghost={"str_shape": "range", "axioms": numstr_axioms()})
 sp.require("invariant", lambda cx, self, ports: inv_port(cx, self))
-sp.require("own ports", lambda cx, self, ports: same_list(ports, cx.get(self, "_ports")))
+def _same_members_strict(A, B):
+    return z3.And(ascending(A), ascending(B), S.forall_int(lambda p: _mem(A, p) == _mem(B, p)))
+
+
+# the port list assigned is the expression's own: the same members, and literally the same list or both strictly ascending
+sp.require("own ports: members", lambda cx, self, ports: S.forall_int(lambda p: _mem(ports, p) == _mem(cx.get(self, "_ports"), p)))
+sp.require("own ports: order", lambda cx, self, ports: z3.Or(same_list(ports, cx.get(self, "_ports")),
+                                                             z3.And(ascending(ports), ascending(cx.get(self, "_ports")))))
+# instance of lemma L8.unique (props/C08.py: step and length parts proved; the induction is the usual meta-argument)
+sp.ghost["defs"] = [lambda cx, self, ports: z3.Implies(_same_members_strict(ports, cx.get(self, "_ports")),
+                                                       same_list(ports, cx.get(self, "_ports")))]
 sp.ensure("operator unchanged", lambda cx, result, self, ports: _op(cx, self) == _op(cx.old, self))
 sp.ensure("text unchanged", lambda cx, result, self, ports: z3.Implies(_op(cx.old, self) != "neq", _unchanged_text(cx, self)))
 sp.ensure("meaning unchanged", lambda cx, result, self, ports: _unchanged_meaning(cx, self), hints=[
@@ -190,34 +206,26 @@ c_port.d.ghost["ghost_args"] = {"i0": lambda cx, self, ports: cx.get(self, "_ite
 
 
 # ---------------------------------------------------------------- assigning the range string back
-# assumed codec law (checked natively by the codec clauses of C08 on all subsets of small universes and on seeded subsets of
-# 1..65535): decoding the compact text of a strictly ascending list of ports within 1..65535 gives that list back.
-UNPTS_LEN = z3.Function("ports_of_text_len", z3.StringSort(), z3.IntSort())
-UNPTS_ARR = z3.Function("ports_of_text_arr", z3.StringSort(), z3.ArraySort(z3.IntSort(), z3.IntSort()))
-
-
-def _codec_axiom():
-    n = z3.Int("n!cd")
-    a = z3.Array("a!cd", z3.IntSort(), z3.IntSort())
-    i, j, k = z3.Ints("i!cd j!cd k!cd")
-    strict = z3.ForAll([i, j], z3.Implies(z3.And(0 <= i, i < j, j < n), a[i] < a[j]))
-    inrange = z3.ForAll([i], z3.Implies(z3.And(0 <= i, i < n), z3.And(1 <= a[i], a[i] <= ALL)))
-    same = z3.ForAll([k], z3.Implies(z3.And(0 <= k, k < n), UNPTS_ARR(PTS(n, a))[k] == a[k]))
-    return z3.ForAll([n, a], z3.Implies(z3.And(n >= 0, strict, inrange), z3.And(UNPTS_LEN(PTS(n, a)) == n, same)), patterns=[PTS(n, a)])
-
-
+# The encoder helpers.ports_to_string is proved (contracts/c_codec.py).  The decoder helpers.string_to_ports (sets, named
+# tuples, set iteration) is outside the subset: assumed contract, stated semantically and checked natively by the codec
+# clauses of C08 (all subsets of small universes, seeded subsets of 1..65535, with an independent decoder).
 stp = contract("cisco_acl.helpers.string_to_ports", dict(ports=TStr), TList(TInt), verify=False, props=("C08",),
-               note="decoder of the compact range text, named by ghost functions of the text; with the assumed codec law it inverts ports_to_string on "
-                    "strictly ascending port lists (bounded codec clauses of C08)")
-stp.ghost["pure_result"] = lambda cx, ports: SList(TInt, UNPTS_LEN(S._t(ports)), UNPTS_ARR(S._t(ports)))
+               note="decoder of the compact range text: returns, strictly ascending, exactly the ports within 1..65535 that the comma tokens of the "
+                    "text denote (bounded codec clauses of C08)")
+stp.ensure("ascending", lambda cx, result, ports: ascending(result))
+stp.ensure("members", lambda cx, result, ports: S.forall_int(lambda p: _mem(result, p) == z3.And(
+    1 <= p, p <= ALL, covered(result_tokens(ports), p))))
+
 
 ss = contract("cisco_acl.port.Port.sport.fset#self", dict(self=TObj("Port"), sport=TStr), None, props=("C08",), modifies=PFIELDS,
-              ghost={"str_shape": "range", "axioms": numstr_axioms() + [_codec_axiom()]})
+              ghost={"str_shape": "range", "axioms": numstr_axioms()})
 ss.require("invariant", lambda cx, self, sport: inv_port(cx, self))
 ss.require("ports strictly ascending", lambda cx, self, sport: ascending(cx.get(self, "_ports")))
-ss.require("own range text", lambda cx, self, sport: z3.And(
-    S._t(sport) == S._t(cx.get(self, "_sport")),
-    S._t(cx.get(self, "_sport")) == PTS(cx.get(self, "_ports").n, cx.get(self, "_ports").a)))
+ss.require("own range text", lambda cx, self, sport: S._t(sport) == S._t(cx.get(self, "_sport")))
+ss.require("the range text denotes the ports", lambda cx, self, sport: S.forall_int(
+    lambda x: covered(result_tokens(sport), x) == _mem(cx.get(self, "_ports"), x)))
+ss.require("ports within 1..65535", lambda cx, self, sport: S.forall_int(
+    lambda p: z3.Implies(_mem(cx.get(self, "_ports"), p), z3.And(1 <= p, p <= ALL))))
 ss.ensure("operator unchanged", lambda cx, result, self, sport: _op(cx, self) == _op(cx.old, self))
 ss.ensure("text unchanged", lambda cx, result, self, sport: z3.Implies(_op(cx.old, self) != "neq", _unchanged_text(cx, self)))
 ss.ensure("meaning unchanged", lambda cx, result, self, sport: _unchanged_meaning(cx, self))
